@@ -165,6 +165,12 @@ func (in *Interp) branch(c *Term) bool {
 			alt[len(in.trace)] = Decision{Kind: 'b', B: false}
 			in.newWork = append(in.newWork, alt)
 			in.res.Forks++
+			if forkDebug {
+				in.res.Stubs["fork@"+in.posStr(in.curPos)]++
+				if in.res.Forks < 4 {
+					fmt.Fprintf(os.Stderr, "FORK at %s: %s\n", in.posStr(in.curPos), c.str(7))
+				}
+			}
 		}
 	}
 	in.trace = append(in.trace, Decision{Kind: 'b', B: take})
@@ -482,6 +488,9 @@ func (in *Interp) runPath(entry *ssa.Function, prefix []Decision) (res *PathResu
 			res.Status = "engine-error"
 			res.Detail = fmt.Sprintf("%v\n%s", r, debug.Stack())
 			res.Inconclusive = append(res.Inconclusive, "engine-error: "+fmt.Sprint(r))
+			if os.Getenv("VERIF_DEBUG") != "" {
+				fmt.Fprintln(os.Stderr, res.Detail)
+			}
 		}
 	}
 	func() {
